@@ -117,6 +117,7 @@ def proj_item(obs, path):
 
 def payload(case, obs, extra=None):
     p = {"group": case.get("group"), "input": case["input"], "order": case.get("order"), "sched": case.get("sched"),
+         **({"toks": case["toks"]} if case.get("toks") else {}),
          "observed": {k: obs.get(k) for k in ("outcome", "accepted", "msg", "class") if k in obs},
          "predicted": {"accepted": case.get("accepted"), "oracle": case.get("oracle")}}
     if extra:
